@@ -77,6 +77,8 @@ type ledgers struct {
 	elections int
 	leadersElected int
 	tasks *taskLedger
+	lastCommittedCfg *Config
+	committedCfgs    []Config
 	persisted    map[uint64]map[[2]uint64]bool // nid -> (term, vote) pairs seen durable on its disk
 	connTerm     map[int]uint64
 	reportedTerm map[uint64]uint64 // nid -> highest term it put on the wire in a response or vote request
@@ -155,10 +157,36 @@ func (c *cluster) observe() {
 				}
 				l.leaderOf[e.term] = e.nid
 				c.stats.class("leader-elected")
+				// votes actually granted on the wire (plus the self vote) must form a
+				// majority of the voters of the configuration it campaigned with
+				voters, granted := 0, 0
+				for id, nd := range e.cfg.Latest.Nodes {
+					if !nd.Voter {
+						continue
+					}
+					voters++
+					if l.votes[[2]uint64{id, e.term}] == e.nid {
+						granted++
+					}
+				}
+				if granted < voters/2+1 {
+					c.fail("leader-unique", "leader-without-majority", "node %d became leader of term %d with %d granted votes of %d voters", e.nid, e.term, granted, voters)
+				}
+				if nd, ok := e.cfg.Latest.Nodes[e.nid]; !ok || !nd.Voter {
+					c.fail("nonvoter-authority", "nonvoter-leader", "node %d became leader of term %d but is not a voter in its latest configuration", e.nid, e.term)
+				}
 			}
 		case "election":
 			l.elections++
 			c.onElectionStarted(e)
+		case "electionAborted":
+			if e.s == "not voter" || e.s == "not part of cluster" {
+				c.stats.class("nonvoter-timeout")
+			}
+		case "compacted":
+			c.stats.class("compaction")
+		case "configReverted":
+			c.stats.class("config-reverted")
 		}
 	}
 	c.collectInfos()
@@ -372,6 +400,21 @@ func (l *ledgers) extendContig() {
 			l.idIndex[ci.updID] = l.contigCommit
 		}
 		l.updCount = append(l.updCount, cnt)
+		if ci.typ == entryConfig {
+			if cfg, ok := l.cfgEntries[l.contigCommit][ci.term]; ok {
+				if l.lastCommittedCfg != nil {
+					if d := voterDiff(*l.lastCommittedCfg, cfg); d > 1 {
+						l.c.fail("config-safety", "committed-config-multi-voter-change", "committed configuration %v follows %v: %d voters differ", cfg, *l.lastCommittedCfg, d)
+					}
+				}
+				if len(voterSet(cfg)) == 0 {
+					l.c.fail("config-safety", "config-no-voter", "committed configuration %v has no voter", cfg)
+				}
+				cp := cfg
+				l.lastCommittedCfg = &cp
+				l.committedCfgs = append(l.committedCfgs, cfg)
+			}
+		}
 	}
 }
 
@@ -470,7 +513,9 @@ func (c *cluster) onConfigChanged(e *event) {
 	if len(voterSet(newC)) == 0 {
 		c.fail("config-safety", "config-no-voter", "node %d adopted configuration %v without any voter", e.nid, newC)
 	}
-	if newC.Index > oldC.Index {
+	// predecessor = the configuration the entry's creator derived it from; a
+	// follower may legitimately skip configurations (snapshot installation)
+	if newC.Index > oldC.Index && e.state == Leader {
 		if d := voterDiff(oldC, newC); d > 1 {
 			c.fail("config-safety", "config-multi-voter-change", "node %d adopted %v after %v: %d voters differ", e.nid, newC, oldC, d)
 		}
